@@ -7,7 +7,7 @@ import random
 
 from vsim import gen
 from vsim.cluster import TICK, views, groups, sync_satisfiable, master_agreement, operational, ident, vt, peek
-from vsim.sim import World, BASE_TIME
+from vsim.sim import World, Runaway, BASE_TIME
 
 
 def make_scenario(rng, knobs):
@@ -43,7 +43,7 @@ def gen_script(rng, scenario, knobs):
     dist = []
     for _ in range(n_dist):
         kind = rng.choice(kinds)
-        if kind == 'user_shutdown' and eff['failure'] == 'SHUTDOWN':
+        if 'shutdown' in kind and kind.startswith('user_') and eff['failure'] == 'SHUTDOWN':
             kind = 'user_restart'  # keeps the cause of a SHUTTING_DOWN entry unambiguous for the monitors
         d = {'kind': kind, 'gap_ticks': rng.choice([0, 1, 2, 3, k_ticks + 2, k_ticks + 2]),
              'target': rng.choice(nicks), 'jitter': round(rng.uniform(0.0, TICK), 2)}
@@ -61,6 +61,8 @@ def gen_script(rng, scenario, knobs):
                 d['a'], d['b'] = rng.sample(nicks, 2)
                 d['duration'] = round(rng.choice([rng.uniform(2, 9), rng.uniform(10, 30), rng.uniform(30, 70)]), 2)
                 d['both'] = rng.random() < 0.7
+        if kind in ('user_restart_shutdown', 'user_shutdown_restart'):
+            d['delay2'] = round(rng.choice([0.0, 0.05, 0.3, 1.0, 2.5, 6.0]), 2)
         if rng.random() < knobs.get('trigger_p', 0.0):
             d['when_state'] = rng.choice(['SYNCHRONIZATION', 'ELECTION', 'DISTRIBUTION', 'OPERATION', 'CONCILIATION'])
             d['when_who'] = rng.choice(['master', 'any', 'target'])
@@ -103,7 +105,10 @@ class Run:
     def sample(self):
         w = self.world
         vws = views(w)
-        self.samples.append((vt(w), vws))
+        comps, cliques = groups(w, vws)
+        self.samples.append({'vt': vt(w), 'views': vws, 'groups': comps, 'cliques': cliques,
+                             'incs': {i.nick: i.inc for i in w.live()}, 'cut': bool(w.cut),
+                             'cut_count': getattr(w, 'cut_count', 0)})
         return vws
 
     def run_ticks(self, n, stop=None):
@@ -191,6 +196,20 @@ class Run:
             rec['noop'] = not self.kill_some_process(target)
         elif kind == 'dup':
             rec['noop'] = not self.duplicate_some_process()
+        elif kind in ('user_restart_shutdown', 'user_shutdown_restart'):
+            # two closing requests in a row, the second one while the first is being served
+            first, second = kind.split('_')[1:]
+            inst = w.instances.get(target)
+            if inst and inst.alive:
+                rec['result'] = w.user_rpc(target, 'supvisors.' + first)
+                w.run_for(d.get('delay2', 0.5))
+                live = [i.nick for i in w.live() if i.sd.options.mood >= 1]
+                if live:
+                    other = self.rng.choice(live)
+                    rec['result2'] = (other, w.user_rpc(other, 'supvisors.' + second))
+                self.pending_until = max(self.pending_until, w.now + 60.0)
+            else:
+                rec['noop'] = True
         elif kind in ('user_restart', 'user_shutdown'):
             inst = w.instances.get(target)
             if inst and inst.alive:
@@ -261,6 +280,10 @@ class Run:
         try:
             for monitor in self.monitors:
                 monitor.attach(self)
+            self.injected = []
+            if self.knobs.get('crash_on_request_p'):
+                from vsim.faults import crash_target_on_request
+                crash_target_on_request(self, self.knobs['crash_on_request_p'])
             for nick, delay in script['boot'].items():
                 w.at(w.now + delay, self._reboot, nick)
             k = script['k_ticks']
@@ -294,6 +317,9 @@ class Run:
                 for name, value in monitor.counters.items():
                     self.count(name, value)
             return violations
+        except Runaway:
+            self.count('runaway_cases')
+            return [v for monitor in self.monitors for v in monitor.violations]
         finally:
             w.close()
 
@@ -329,7 +355,7 @@ class Run:
         self.outcome['stage1_converged'] = None
         for stage in (1, 2):
             self.run_ticks(k)
-            vws = self.samples[-1][1]
+            vws = self.samples[-1]['views']
             comps, cliques = groups(w, vws)
             self.outcome[f'stage{stage}'] = {'vt': vt(w), 'views': vws, 'groups': comps, 'cliques': cliques,
                                              'quiescent': w.quiescent()}
@@ -339,7 +365,7 @@ class Run:
                 if ok_all:
                     # a couple of extra ticks to make sure the state is stable
                     self.run_ticks(3)
-                    vws = self.samples[-1][1]
+                    vws = self.samples[-1]['views']
                     comps, cliques = groups(w, vws)
                     self.outcome['stage2'] = {'vt': vt(w), 'views': vws, 'groups': comps, 'cliques': cliques,
                                               'quiescent': w.quiescent()}
@@ -363,7 +389,8 @@ class Run:
                 'apps': {a: {'managed': m['managed'], 'programs': list(m['programs'])}
                          for a, m in scn['model'].items()},
                 'boot': self.script['boot'],
-                'disturbances': [{k: v for k, v in d.items() if k != 'pre'} for d in self.disturbances]}
+                'disturbances': [{k: v for k, v in d.items() if k != 'pre'} for d in self.disturbances],
+                'injected_faults': getattr(self, 'injected', [])}
 
     def shape(self):
         """ Identity of the case for distinctness: topology, options, script shape, schedule profile. """
